@@ -24,7 +24,71 @@ type HbCfg struct {
 	Unsafe  bool              `json:"unsafe"`
 	Seq     []string          `json:"seq"`     // sequential history mode: start | stop | rement | addent, one observation window per operation
 	Periods []int             `json:"periods"` // period mode: heartbeat timeouts in milliseconds
+	Slow    bool              `json:"slow"`    // slow-subscriber mode
 }
+
+// the timestamp of a heartbeat notification (nil if msg is none)
+func hbTimestamp(msg []byte) *time.Time {
+	var dg model.Datagram
+	if json.Unmarshal(msg, &dg) != nil || len(dg.Datagram.Payload.Cmd) != 1 {
+		return nil
+	}
+	d := dg.Datagram.Payload.Cmd[0].DeviceDiagnosisHeartbeatData
+	if d == nil || d.Timestamp == nil {
+		return nil
+	}
+	t, err := d.Timestamp.GetTime()
+	if err != nil {
+		return nil
+	}
+	return &t
+}
+
+// a slow subscriber: its connection blocks for 2.5 s on the third heartbeat notification; every refresh after that
+// still carries a current timestamp (age = time of the write - timestamp, which is rounded to seconds)
+func runHbSlow(topo *Topo) HbLine {
+	line := HbLine{Mode: "slow", PeriodOk: true, Ops: []HbOp{}, Sched: []string{}, Kind: map[string]string{}, Pre: []string{}, Realised: true, CtrOk: true, Notified: true}
+	s, p, _, ent, subOK := hbSetup(topo, hbPeriod)
+	defer spine.VerifSetHook(nil)
+	defer s.Close()
+	var mu sync.Mutex
+	n, after, maxAge := 0, 0, time.Duration(0)
+	stalled := false
+	p.w.onWrite = func(msg []byte) {
+		ts := hbTimestamp(msg)
+		if ts == nil {
+			return
+		}
+		age := time.Since(*ts)
+		mu.Lock()
+		n++
+		k := n
+		if stalled {
+			after++
+			if age > maxAge {
+				maxAge = age
+			}
+		}
+		mu.Unlock()
+		if k == 3 {
+			time.Sleep(2500 * time.Millisecond)
+			mu.Lock()
+			stalled = true
+			mu.Unlock()
+		}
+	}
+	_ = ent.HeartbeatManager().StartHeartbeat()
+	time.Sleep(2500*time.Millisecond + 8*hbPeriod)
+	ent.HeartbeatManager().StopHeartbeat()
+	mu.Lock()
+	line.MaxAgeMs, line.After = int(maxAge/time.Millisecond), after
+	mu.Unlock()
+	if !subOK {
+		line.Panic = "the subscription of the heartbeat subscriber was not granted"
+	}
+	return line
+}
+
 type HbOp struct {
 	P     string `json:"p"`
 	Kind  string `json:"kind"`
@@ -46,6 +110,8 @@ type HbLine struct {
 	CtrOk    bool              `json:"ctrok"`    // counters of the refreshes strictly increasing
 	Notified bool              `json:"notified"` // every refresh in the window was notified to the subscriber, and nothing else
 	PeriodOk bool              `json:"periodok"` // 0 < ticker period <= announced timeout for every stream started
+	MaxAgeMs int               `json:"maxagems"` // mode slow: largest age of a timestamp notified after the stall
+	After    int               `json:"after"`    // mode slow: refreshes notified after the stall
 	Mode     string            `json:"mode"`     // sched | seq | periods
 	Op       string            `json:"op"`       // seq mode: the operation just executed
 	Pre      []string          `json:"pre"`      // seq mode: the operations before it
@@ -87,6 +153,8 @@ func hbReplay(args []string) {
 		var c HbCfg
 		must(json.Unmarshal(sc.Bytes(), &c))
 		switch {
+		case c.Slow:
+			must(enc.Encode(runHbSlow(topo)))
 		case len(c.Periods) > 0:
 			must(enc.Encode(runHbPeriods(topo, c)))
 		case len(c.Seq) > 0:
